@@ -248,15 +248,16 @@ impl<'a> Checker<'a> {
                         }
                     },
                 }
-                if !f.bytes.is_empty() {
-                    for other_salt in 0u8..4 {
-                        if other_salt != f.salt {
-                            if let Some((h, _, _)) = self.seen_ptr.get(&(other_salt, key.1.clone())) {
-                                if h == &f.pointer_hash {
-                                    self.viol("C03/salt-ignored", format!("file {}: same hash under salts {} and {}", f.label, f.salt, other_salt), scn, si);
-                                } else {
-                                    self.out.count("vac:salt_pairs_compared", 1);
-                                }
+                for other_salt in 0u8..4 {
+                    if other_salt != f.salt {
+                        if let Some((h, _, _)) = self.seen_ptr.get(&(other_salt, key.1.clone())) {
+                            if h == &f.pointer_hash {
+                                // the empty file has its own signature: it is a recorded known finding (its hash is the
+                                // all-zero value under every salt), any other content is not
+                                let sig = if f.bytes.is_empty() { "C03/salt-ignored@empty-file" } else { "C03/salt-ignored" };
+                                self.viol(sig, format!("file {} ({} bytes): same hash {} under salts {} and {}", f.label, f.bytes.len(), f.pointer_hash, f.salt, other_salt), scn, si);
+                            } else {
+                                self.out.count("vac:salt_pairs_compared", 1);
                             }
                         }
                     }
